@@ -131,6 +131,7 @@ class Check:
         module = build.build_module(getattr(spec, "MODULE", self.pid.lower()), self.harness_files(), entries, defines=getattr(spec, "DEFINES", ()),
                                     ref_repo=self.ref_repo(), keep=keep)
         t_build = time.time() - self.t0
+        self.module = module
         for j in jobs:
             j["module"] = module
             j.setdefault("seed", self.seed)
@@ -313,6 +314,7 @@ class Check:
     def engine_replay(self, job, rp, aid):
         """re-execute the harness in the engine with every symbolic input fixed to the model"""
         j = dict(job)
+        j["module"] = self.module
         j["engine_opts"] = dict(job.get("engine_opts", {}), replay={"values": rp["values"], "input": rp.get("input", ""), "trunc": rp.get("trunc")})
         j["budget"] = 300
         r = runner.run_job(j)
